@@ -19,6 +19,10 @@ from .thermo import BASE, RAW
 PROPERTY = 'C06'
 
 
+# a recorded finding (K6) stands for this property: it is not claimed as proved although every obligation of the units is discharged
+LEVEL = 'other'
+
+
 def world():
     return ThermoWorld()
 
